@@ -196,6 +196,14 @@ StartSeq(f) == CASE f.k = "none" -> <<>>
 
 Card(f) == CASE f.k = "none" -> 0 [] f.k = "inst" -> 1 [] OTHER -> Len(StartSeq(f))
 
+\* The tool checks what it loads from the persisted text.  That is the model itself when the links are the join of the
+\* values (Persistable) and no value is written differently from how it reads: an unset value is written as the null
+\* value of its type, which for integers, reals, booleans and strings is an ordinary value (it may match a key, and it
+\* is not a null identifier any more) - only an unset id stays null.
+CliDomain == /\ Persistable
+             /\ \A c \in ClassSet : \A i \in Live(c) : \A n \in Rng(AttrNames(c)) :
+                    Read(c, i, n) = "unset" => AttrType(c, n) = "UNIQUE_ID"
+
 FromDomain(f) == f.k # "sel" \/ OpsDomain(f.c, f.ops)
 InDomain(o) ==
     CASE o.k = "sel" -> OpsDomain(o.c, o.ops)
@@ -203,7 +211,7 @@ InDomain(o) ==
                         /\ ChainUnambiguous(o.from.c, o.chain)
       [] o.k = "card" -> FromDomain(o.from)
       \* the command-line tool checks the model it loads from the persisted text
-      [] o.k = "cli" -> Persistable
+      [] o.k = "cli" -> CliDomain
       [] OTHER -> TRUE
 
 \* xtuml.consistency_check.main: every -r number (all associations when none is given) and every -k class (all classes
